@@ -63,6 +63,9 @@ func (o *c20) Step(r *StepRec) []Violation {
 		if r.OK {
 			o.hit("boundary_message_accepted")
 		}
+		if len(a.Pricing) > 60 && strings.Contains(a.Pricing, "promotions_by_time") {
+			o.hit("promotion_window_at_the_limits_of_the_calendar_past_validation")
+		}
 		if len(a.Pricing) > 60 && !strings.Contains(a.Pricing, "promotions_by_time") {
 			o.hit("price_at_the_integer_limits_past_validation")
 			if r.OK {
